@@ -565,3 +565,155 @@ Definition check_man3 (c : sources * list entry * bool * bool * bool * bool * li
   (let '(st, ok) := deploy_fs res_fs false dsl srcs model_tgt man in
    let view := inst_view model_tgt st in
    Bool.eqb ok completed && ents_sub view lst && ents_sub lst view).
+
+(* ---------------------------------------------------------------- SEQUENCES of references staged into ONE working directory *)
+(* A component has several references; Job.stageIn stages them one after the other into the same working directory, so
+   each staging step finds what the earlier ones (or an earlier run) left there — in particular symbolic links (:link
+   references, links re-created by shutil.copytree(symlinks=True), link members of archives).  [st]: what exists in the
+   working directory d (physical path, kind), as in the model of the deployment.  One step returns the entries the
+   directory gains, every path it creates or writes (AFTER the links of the file system have been followed), a code
+   (0 staged, 1 archive refused by the check, 2 OSError) and whether the model of the step is exact.
+     [follow]: the file system follows links (true: what happens; false: the lexical reading);
+     [guard] : the repair of F18f — shutil.copy is not called when <working directory>/<name> is a symbolic link
+               (false: the code before the repair, which wrote THROUGH the link). *)
+Inductive sref :=
+| RCopyFile (src : string)                   (* :copy / :copyout of a file: shutil.copy(reference, directory) *)
+| RCopyDir (src : string) (t : stree)        (* :copy / :copyout of a directory: shutil.copytree(reference, directory/name, symlinks=True) *)
+| RLink (src : string)                       (* :link: os.symlink(reference, directory/name) *)
+| RExtract (ms : list member).               (* :extract *)
+
+Definition sres := (list fsent * list (list string) * nat * bool)%type.
+Definition s_fail : sres := ([], [], 2, true).
+
+Definition fs_res (follow strict : bool) (lk : links) (p : list string) : list string :=
+  if follow then resolve strict lk link_fuel p else p.
+
+Definition kind_at (st : list fsent) (p : list string) : option ekind :=
+  match List.find (fun x => list_eqb (fst x) p) st with Some x => Some (snd x) | None => None end.
+Definition link_at (st : list fsent) (p : list string) : bool := existsb (fun l => list_eqb (fst l) p) (links_of st).
+Definition dir_at (st : list fsent) (p : list string) : bool := match kind_at st p with Some EDir => true | _ => false end.
+Definition file_at (st : list fsent) (p : list string) : bool := match kind_at st p with Some EFile => true | _ => false end.
+
+(* shutil.copy(reference, d): the file is opened for writing at d/name — which follows a link found there (the defect);
+   a directory there, or d/name led by a link to a directory: IsADirectoryError *)
+Definition copy_file_step (follow guard : bool) (d : list string) (st : list fsent) (src : string) : sres :=
+  match stage_entry d src with
+  | None => s_fail
+  | Some p =>
+      if guard && link_at st p then s_fail else
+      let q := fs_res follow false (links_of st) p in
+      if list_eqb q d || dir_at st q || blocked st q then s_fail
+      else ((if known d st q then [] else [(q, EFile)]), [q], 0, true)
+  end.
+
+(* os.symlink(reference, d/name): the last component is not followed, fails when the name exists *)
+Definition link_step (follow : bool) (d : list string) (st : list fsent) (src : string) : sres :=
+  match stage_entry d src with
+  | None => s_fail
+  | Some p =>
+      let q := fs_res follow true (links_of st) p in
+      if known d st q then s_fail else ([(q, ELink (norm_onto [] (segs src)))], [q], 0, true)
+  end.
+
+(* shutil.copytree(reference, d/name, symlinks=True): os.makedirs(d/name) fails when the name exists (also as a link);
+   the links of the source are re-created *)
+Definition copy_dir_step (follow : bool) (d : list string) (st : list fsent) (src : string) (t : stree) : sres :=
+  match stage_entry d src with
+  | None => s_fail
+  | Some p =>
+      let q := fs_res follow true (links_of st) p in
+      if known d st q then s_fail
+      else (((q, EDir) :: copy_entries true q t)%list, (q :: map fst (copy_entries true q t))%list, 0, true)
+  end.
+
+(* an accepted archive, member by member: tarfile makes the missing directories on the way, a file member replaces a
+   file, a directory member accepts a directory; every other meeting of a member with something that exists (and hard
+   links to what is not a file yet) is left to tarfile: the step is then not exact *)
+Definition is_kdir (m : member) : bool := match snd m with KDir => true | _ => false end.
+Definition member_kind (d : list string) (m : member) : ekind :=
+  match snd m with
+  | KDir => EDir
+  | KSym _ => match mtarget d m with Some tp => ELink (snd tp) | None => EFile end
+  | _ => EFile
+  end.
+Definition ext_add (d : list string) (st : list fsent) (acc : list fsent * bool) (m : member) : list fsent * bool :=
+  let '(new, exact) := acc in
+  let cur := (st ++ new)%list in
+  let p := snd (mpath d m) in
+  if list_eqb p d then (new, exact && is_kdir m) else
+  let dirs := mkdirs d cur (removelast p) in
+  let cur1 := (cur ++ dirs)%list in
+  let clash := blocked cur p || negb (lprefixb d p) ||
+               match kind_at cur p, snd m with
+               | None, KHard _ => negb (match mtarget d m with Some tp => file_at cur1 (snd tp) | None => false end)
+               | None, _ => false
+               | Some EDir, KDir => false
+               | Some EFile, KFile => false
+               | _, _ => true
+               end in
+  ((new ++ dirs ++ (if known d cur1 p then [] else [(p, member_kind d m)]))%list, exact && negb clash).
+
+Definition extract_step (follow : bool) (d : list string) (st : list fsent) (ms : list member) : sres :=
+  if tar_check_pre (links_of st) d ms then
+    let '(new, exact) := fold_left (ext_add d st) ms ([], true) in
+    (new, (if follow then extract_pre (links_of st) d ms else extract_lexical d ms), 0, exact)
+  else ([], [], 1, true).
+
+Definition sstep (follow guard : bool) (d : list string) (st : list fsent) (r : sref) : sres :=
+  match r with
+  | RCopyFile src => copy_file_step follow guard d st src
+  | RCopyDir src t => copy_dir_step follow d st src t
+  | RLink src => link_step follow d st src
+  | RExtract ms => extract_step follow d st ms
+  end.
+
+(* the references in the order they are staged; [stop]: Job.stageIn ends with the first reference that fails, a caller
+   of StageReference may go on.  Result: the working directory afterwards, every path created or written, and per step
+   the code with whether the model was exact up to and including that step *)
+Fixpoint run_refs (follow guard stop : bool) (d : list string) (st : list fsent) (exact : bool) (refs : list sref)
+  : list fsent * list (list string) * list (nat * bool) :=
+  match refs with
+  | [] => (st, [], [])
+  | r :: rest =>
+      let '(new, w, c, ex) := sstep follow guard d st r in
+      let st1 := (st ++ new)%list in
+      if stop && negb (Nat.eqb c 0) then (st1, w, [(c, exact && ex)])
+      else let '(st', w', cs) := run_refs follow guard stop d st1 (exact && ex) rest in
+           (st', (w ++ w')%list, (c, exact && ex) :: cs)
+  end.
+
+Definition stage_seq (d : list string) (st : list fsent) (stop : bool) (refs : list sref) :=
+  run_refs true true stop d st true refs.
+Definition seq_writes (r : list fsent * list (list string) * list (nat * bool)) : list (list string) := snd (fst r).
+Definition seq_state (r : list fsent * list (list string) * list (nat * bool)) : list fsent := fst (fst r).
+Definition seq_codes (r : list fsent * list (list string) * list (nat * bool)) : list (nat * bool) := snd r.
+
+(* -- correspondence: case = (d, what the working directory held before, references in staging order, stop,
+      code of every reference the implementation staged, every entry of the working directory afterwards:
+      relative path, kind 0 dir 1 file 2 link, lexically normalised target of a link) *)
+Fixpoint codes_agree (model : list (nat * bool)) (impl : list nat) : bool :=
+  match model, impl with
+  | [], [] => true
+  | (c, ex) :: m', i :: i' => if ex then Nat.eqb c i && codes_agree m' i' else true
+  | (_, ex) :: _, [] => negb ex
+  | [], _ :: _ => false
+  end.
+Definition all_exact (cs : list (nat * bool)) : bool := forallb (fun c => snd c) cs.
+Definition sview := (list string * nat * list string)%type.
+Definition seq_view (d : list string) (st : list fsent) : list sview :=
+  flat_map (fun x => let tg := match snd x with ELink t => t | _ => [] end in
+                     match lstrip d (fst x) with
+                     | Some [] => []
+                     | Some r => [(r, kind_code (snd x), tg)]
+                     | None => [([".."], kind_code (snd x), tg)]     (* outside the working directory: never in a listing of it *)
+                     end) st.
+Definition sview_eqb (a b : sview) : bool :=
+  list_eqb (fst (fst a)) (fst (fst b)) && Nat.eqb (snd (fst a)) (snd (fst b)) && list_eqb (snd a) (snd b).
+Definition sviews_sub (a b : list sview) : bool := forallb (fun x => existsb (sview_eqb x) b) a.
+Definition check_seq (c : list string * list fsent * list sref * bool * list nat * list sview) : bool :=
+  let '(d, st0, refs, stop, codes, lst) := c in
+  let r := stage_seq d st0 stop refs in
+  codes_agree (seq_codes r) codes &&
+  forallb (lprefixb d) (seq_writes r) &&
+  (negb (all_exact (seq_codes r)) ||
+   (let v := seq_view d (seq_state r) in sviews_sub v lst && sviews_sub lst v)).
